@@ -518,7 +518,12 @@ class Gen:
         P = self.pick
         if op in ('pointer', 'reference', 'rvalue_reference', 'conversion', 'ctor', 'dtor', 'this'): return self.emit(op, [P('type')])
         if op == 'array': return self.emit(op, [P('type'), P('expr')])
-        if op == 'qualified': return self.emit(op, [self.rng.randrange(1, 8), P('type')])
+        if op == 'qualified':
+            # mostly the three standard coordinates; one request in six carries coordinates beyond them (up to bit 63), alone or mixed
+            q = self.rng.randrange(1, 8)
+            if self.rng.random() < 0.17:
+                q = self.rng.choice([1 << 3, 1 << 31, 1 << 32, 1 << 40, 1 << 63, (1 << 32) | q, (1 << 63) | (1 << 31) | q, (1 << 40) | q])
+            return self.emit(op, [q, P('type')])
         if op == 'function': return self.emit(op, [P('product'), P('type')])
         if op == 'function_x': return self.emit(op, [P('product'), P('type'), P('xfer')])
         if op == 'function_e': return self.emit(op, [P('product'), P('type'), P('expr')])
